@@ -716,8 +716,8 @@ def read_all(F, R):
                             none_edges.append((sb, t['otherwise']))
     oks = []
     for bi, j, s in agg_sites(b, r'^std::result::Result$', 'Ok'):
-        if s['lhs']['l'] == 0 and not place_proj(s['lhs']):
-            oks.append(bi)
+        if (s['lhs']['l'] == 0 or s['lhs']['l'] in b.ret_locals) and not place_proj(s['lhs']):
+            oks.append(bi)      # (the result of a spliced `helper(..).await` in tail position reaches the return place through a local)
     stream_oks = [bi for bi in oks if any(bi in b.reachable(a['ready']) for a in aws)]
     R.ob('C10.feed', 'Payload::read_all|stream-read-sites', len(aws) >= 2 and bool(none_edges), 'expected the first read and the loop read of the stream, found %d awaited reads, %d end-of-stream edges' % (len(aws), len(none_edges)), b.loc(0))
     bad = [bi for bi in stream_oks if not any(edge_dominates(b, sb, tb, bi) for sb, tb in none_edges)]
@@ -802,7 +802,7 @@ def request_classes(F, R):
     for ver in ('v3', 'v5'):
         adt = F.adts['%s::codec::Decoded' % ver]
         for fn, var in (('is_publish', 'Publish'), ('is_chunk', 'PayloadChunk')):
-            b = F.one(r'^%s::dispatcher::<impl inflight::SizedRequest for %s::codec::Decoded>::%s$' % (ver, ver, fn))
+            b = F.one(r'^%s::(\w+::)*<impl inflight::SizedRequest for %s::codec::Decoded>::%s$' % (ver, ver, fn))   # (the impl may live next to the type)
             n += 1
             tab, other = {}, []
             for p in SymEx(b, F, max_paths=400).run():
